@@ -326,6 +326,20 @@ fn main() {
     if t {
         text_cases(&mut ctx, &big, true, false, 2, tmp.path(), true);
     }
+    // very long lines: lengths around the powers of two where buffers and caps usually sit (8 KiB is the
+    // BufReader capacity), in ASCII and in two-byte characters (a cut at an odd offset would split one)
+    for len in [8191usize, 8192, 8193, 65_534, 65_535, 65_536, 65_537, 70_000, 131_073, (1 << 20) + 3] {
+        if !t && len > 140_000 {
+            continue;
+        }
+        for wide in [false, true] {
+            let line: String = if wide { "é".repeat(len / 2) + if len % 2 == 1 { "z" } else { "" } } else { "x".repeat(len) };
+            let lines = vec!["ab".to_string(), line, "c".to_string()];
+            for crlf in [false, true] {
+                text_cases(&mut ctx, &lines, crlf, !crlf, 1, tmp.path(), true);
+            }
+        }
+    }
     multi_frame_cases(&mut ctx, rounds);
     iter_cases(&mut ctx, rounds);
     ctx.finish();
